@@ -123,8 +123,12 @@ def explore(eng, oc, rng, cmd, tmp):
             probs.insert(0, "the re-run failed (exit %d)" % rc2)
         trig = None
         if cmd == "reindex":
+            order = sorted({o[1] for o in ops_applied if o[0] in ("editnote", "addnote", "newpage")})
+            # the known window opens with the hash-map write that FOLLOWS the per-page commits of all changed pages
+            # (an earlier write of the hash map is not part of the unchanged command)
             hash_written = any(l[1] == "write:.zorg/file_hash.json" and l[2].strip() == "_write_file_hash_to_disk" and
-                               not any(x[2].strip() == "_update_zo_file" for x in trace[:i])
+                               not any(x[2].strip() == "_update_zo_file" for x in trace[:i]) and
+                               len([x for x in trace[:i] if x[1] == "commit" and x[2].strip() == "commit"]) >= len(order)
                                for i, l in enumerate(before))
             if hash_written:
                 trig = "crash_after_hash_write"
